@@ -13,10 +13,11 @@ from math import log, pi, sqrt
 
 from vf import core
 
-SIZES = [(0.0109, 0.0134), (0.0136, 0.0167), (0.0170, 0.0211)]  # (r_in, r_out)
+SIZES = [(0.0109, 0.0134), (0.0136, 0.0167), (0.0170, 0.0211), (0.0140, 0.0160), (0.0185, 0.0200)]  # (r_in, r_out); the last two are thin-walled (SDR-17 32 x 2.0, 40 x 1.5 mm)
 SHANKS = [0.010, 0.01856, 0.032]
 RBS = [0.055, 0.070, 0.100]
-COAX = [((0.0221, 0.025), (0.0487, 0.055)), ((0.016, 0.020), (0.040, 0.045)), ((0.025, 0.0285), (0.0575, 0.0625))]  # (inner pipe radii), (outer pipe radii)
+COAX = [((0.0221, 0.025), (0.0487, 0.055)), ((0.016, 0.020), (0.040, 0.045)), ((0.025, 0.0285), (0.0575, 0.0625)),
+        ((0.0176, 0.020), (0.05515, 0.05715))]  # (inner pipe radii), (outer pipe radii); the last: 40 x 2.4 mm inner pipe in a 114.3 x 2.0 mm casing
 KG = [0.6, 1.0, 2.5]
 KS = [1.0, 2.0, 4.0]
 KP = [0.3, 0.45]
@@ -226,7 +227,8 @@ def main(run: core.Run, only=None):
     fluids = FLUIDS[:2] if quick else FLUIDS
     md = MDOT[::3] + [0.2] if quick else MDOT
     cases = []
-    for t, ng in (("double_parallel", 27), ("double_series", 27), ("coaxial", 27), ("single", 27)):
+    n_u, n_c = len(SIZES) * len(SHANKS) * len(RBS), len(COAX) * len(RBS) * 3
+    for t, ng in (("double_parallel", n_u), ("double_series", n_u), ("coaxial", n_c), ("single", n_u)):
         for lo in range(0, ng, 3):
             cases.append({"type": t, "glo": lo, "ghi": min(ng, lo + 3), "kg": kg, "ks": ks, "kp": kp, "fluids": fluids, "mdot": md if t != "single" else md[:1]})
     run.drive(cases, family="conversions")
